@@ -40,6 +40,14 @@ Definition it_field (w : which) : dump -> Z :=
   match w with WScans => attr_field it_scans_field | WCompscans => attr_field it_compscans_field end.
 (* self.target_indices (the attribute name is fixed by the shape test of the translator item) *)
 Definition it_tfield : dump -> Z := attr_field "target_indices".
+(* which target of the dumps shown the generator yields (translated from the `target = ...` statement of each generator):
+     "lowest": self.catalogue.targets[self.target_indices[0]]                       (src = the attribute)
+     "first" : self.catalogue.targets[self.sensor['Observation/target_index'][0]]   (src = the per-dump sensor: first dump in time)
+   (compscans() yields the FIRST target since the repair of C03-F2) *)
+Definition it_target_pick (w : which) : string :=
+  match w with WScans => it_scans_target_pick | WCompscans => it_compscans_target_pick end.
+Definition it_target_src (w : which) : string :=
+  match w with WScans => it_scans_target_src | WCompscans => it_compscans_target_src end.
 
 Definition cdz := @Categorical.cd Z.
 Definition zd : Z := -1.
@@ -72,6 +80,12 @@ Definition sort_uniq (l : list Z) : list Z := fold_right insert_uniq [] l.
 Definition kept_dumps (o : obs) (m : list bool) : list dump := map snd (filter fst (combine m (o_dumps o))).
 Definition indices_of (f : dump -> Z) (o : obs) (m : list bool) : list Z := sort_uniq (map f (kept_dumps o m)).
 
+(* the index into catalogue.targets; IndexError on an empty selection = None *)
+Definition pick_target (w : which) (o : obs) (m : list bool) : option Z :=
+  if String.eqb (it_target_pick w) "first"
+  then hd_error (map (sensor_field (it_target_src w)) (kept_dumps o m))
+  else hd_error (indices_of (attr_field (it_target_src w)) o m).
+
 Record yielded (B : Type) := { y_index : Z; y_name : Z; y_target : Z; y_st : st; y_body : B }.
 Arguments y_index {B}. Arguments y_name {B}. Arguments y_target {B}. Arguments y_st {B}. Arguments y_body {B}.
 
@@ -89,8 +103,8 @@ Fixpoint it_loop {B} (O : sobs) (w : which) (old : list bool) (body : st -> res 
       match select (so O) s (yield_kw w v) with
       | Err e => Err e
       | Ok s1 =>
-          match name_of O w v, indices_of it_tfield (so O) (tk s1) with
-          | Some nm, t :: _ =>
+          match name_of O w v, pick_target w (so O) (tk s1) with
+          | Some nm, Some t =>
               match body s1 with
               | Err e => Err e
               | Ok (b, s2) =>
@@ -165,8 +179,8 @@ Definition iterate_break {B} (O : sobs) (w : which) (body : st -> res (B * st)) 
           match select (so O) s' (yield_kw w v) with
           | Err e => Err e
           | Ok s1 =>
-              match name_of O w v, indices_of it_tfield (so O) (tk s1) with
-              | Some nm, t :: _ => Ok (ys, Some {| ab_index := v; ab_name := nm; ab_target := t; ab_st := s1 |}, s1)
+              match name_of O w v, pick_target w (so O) (tk s1) with
+              | Some nm, Some t => Ok (ys, Some {| ab_index := v; ab_name := nm; ab_target := t; ab_st := s1 |}, s1)
               | _, _ => Err EFail
               end
           end
